@@ -322,6 +322,75 @@ def job_gettransform(jc):
     jc.expect_reached(kind)
 
 
+def replay_to_ufo(inp):
+    kind = inp["kind"]
+    g = lambda n, d=0.0: float(inp.get(n, d))
+    ctor = {
+        "PaintTransform": lambda: P.PaintTransform(transform=tuple(g(f"m{i}") for i in range(6)), paint=TARGET),
+        "PaintTranslate": lambda: P.PaintTranslate(paint=TARGET, dx=g("dx"), dy=g("dy")),
+        "PaintScale": lambda: P.PaintScale(paint=TARGET, scaleX=g("sx"), scaleY=g("sy")),
+        "PaintScaleAroundCenter": lambda: P.PaintScaleAroundCenter(paint=TARGET, scaleX=g("sx"), scaleY=g("sy"), center=Point(g("cx"), g("cy"))),
+        "PaintScaleUniform": lambda: P.PaintScaleUniform(paint=TARGET, scale=g("s")),
+        "PaintScaleUniformAroundCenter": lambda: P.PaintScaleUniformAroundCenter(paint=TARGET, scale=g("s"), center=Point(g("cx"), g("cy"))),
+        "PaintRotate": lambda: P.PaintRotate(paint=TARGET, angle=g("ang")),
+        "PaintRotateAroundCenter": lambda: P.PaintRotateAroundCenter(paint=TARGET, angle=g("ang"), center=Point(g("cx"), g("cy"))),
+        "PaintSkew": lambda: P.PaintSkew(paint=TARGET, xSkewAngle=g("xs"), ySkewAngle=g("ys")),
+        "PaintSkewAroundCenter": lambda: P.PaintSkewAroundCenter(paint=TARGET, xSkewAngle=g("xs"), ySkewAngle=g("ys"), center=Point(g("cx"), g("cy"))),
+    }[kind]
+    p = ctor()
+    try:
+        d = p.to_ufo_paint([TARGET.color])
+        got = ps.ufo_paint_matrix(d)
+    except Exception as e:
+        return {"raised": repr(e)}
+    want = ps.paint_matrix(p)
+    if max(abs(float(a) - float(b)) for a, b in zip(got, want)) > 1e-9:
+        return {"paint": repr(p), "dictionary handed to the COLR compiler": {k: v for k, v in d.items() if k != "Paint"}, "its matrix": [float(x) for x in got], "the paint's matrix": [float(x) for x in want]}
+    return None
+
+
+def job_to_ufo_paint(jc):
+    """A5: the dictionary a transform paint hands to the COLR compiler (to_ufo_paint) denotes, read per the spec's
+    format numbers and field names, the same matrix as the paint itself -- for every transform paint kind."""
+    kind = jc.params["kind"]
+    ctor = dict(_mk_transform_paints())[kind]
+    jc.encode(getattr(P, kind).to_ufo_paint)
+    names = {}
+
+    def body():
+        p = ctor()
+        for fld in p.__dataclass_fields__:
+            v = getattr(p, fld)
+            if fld in ("paint", "format"):
+                continue
+            if fld == "center":
+                names["cx"], names["cy"] = v[0], v[1]
+            elif fld == "transform":
+                for i, x in enumerate(v):
+                    names[f"m{i}"] = x
+            else:
+                names[{"scaleX": "sx", "scaleY": "sy", "scale": "s", "angle": "ang", "xSkewAngle": "xs", "ySkewAngle": "ys"}.get(fld, fld)] = v
+        return p, p.to_ufo_paint([TARGET.color])
+
+    with shims.installed(shims.std_shims()):
+        results = jc.explore(body)
+    for r in results:
+        inputs = dict(names)
+        inputs["kind"] = kind
+        if not jc.no_exception(r, inputs, replay_to_ufo, f"C16:to_ufo_paint:{kind}:raises"):
+            continue
+        p, d = r.value
+        jc.reach(r, kind)
+        with core.post(r):
+            try:
+                got = ps.ufo_paint_matrix(d)
+                prop = ps.aff_eq(got, ps.paint_matrix(p), 0)
+            except (KeyError, TypeError):
+                prop = z3.BoolVal(False)
+        jc.prove(r, prop, f"A5 {kind}.to_ufo_paint denotes the paint's own matrix (spec format number and field names)", inputs, replay_to_ufo, key=f"C16:to_ufo_paint:{kind}")
+    jc.expect_reached(kind)
+
+
 # A3 linear ------------------------------------------------------------------------
 
 
@@ -407,6 +476,7 @@ def jobs(tier):
     js = [Job("transformed", job_transformed)]
     for kind, _ in _mk_transform_paints():
         js.append(Job(f"gettransform[{kind}]", job_gettransform, kind=kind))
+        js.append(Job(f"to_ufo_paint[{kind}]", job_to_ufo_paint, kind=kind))
     js.append(Job("linear.apply_transform", job_linear))
     from harness import C16_radial
 
